@@ -104,6 +104,8 @@ type runner struct {
 	unscripted int
 	faults     []*faultRec
 	closedBefore map[int]bool
+	excused      map[int]bool // resume refused by the broker, or resume exchange cut
+	accounted    int          // wire incarnations established inside the fault windows
 }
 
 func (r *runner) ev(s ...string) { r.evs = append(r.evs, s...) }
@@ -375,6 +377,7 @@ func (r *runner) schedule(fr *faultRec, finals map[int]int) []string {
 	for _, w := range wins {
 		winOf[w.gen] = w
 	}
+	r.accounted += len(wins)
 	writes := map[int][]int{}
 	for _, x := range fr.log {
 		g := cb.GenOf(x.Sess)
@@ -424,6 +427,12 @@ func (r *runner) schedule(fr *faultRec, finals map[int]int) []string {
 		nRes[l]++
 	}
 	r.mu.Unlock()
+	closeReached := map[int]bool{}
+	for _, x := range cb.Log() {
+		if (x.Kind == "closeup" || x.Kind == "closedown") && x.Label >= 0 {
+			closeReached[x.Label] = true
+		}
+	}
 	// the last resume request of a stream got no (successful) answer
 	lastCut := func(label int) bool { return nRes[label] < nReq[label] }
 	resumesLater := func(label, wi int) bool { return lastGen[label] > wins[wi].gen }
@@ -474,7 +483,7 @@ func (r *runner) schedule(fr *faultRec, finals map[int]int) []string {
 			var ls []int
 			for l, fc := range finals {
 				_, wasRefused := cb.RefusedOn(l)
-				if fc == 2 && closedEv[l] == 2 && !wasRefused && !has[l] && !resumesLater(l, wi) && !lastCut(l) {
+				if fc == 2 && closedEv[l] == 2 && !wasRefused && !has[l] && !resumesLater(l, wi) && !lastCut(l) && !closeReached[l] {
 					if _, closedBefore := r.closedBefore[l]; !closedBefore {
 						ls = append(ls, l)
 					}
@@ -484,6 +493,7 @@ func (r *runner) schedule(fr *faultRec, finals map[int]int) []string {
 			for _, l := range ls {
 				ev(fmt.Sprintf("EWatch %d", l))
 				writeFailed = append(writeFailed, l)
+				r.excused[l] = true // its resume request could not even be written: the link was cut at the resume
 				r.closedBefore[l] = true
 			}
 		}
@@ -498,7 +508,13 @@ func (r *runner) schedule(fr *faultRec, finals map[int]int) []string {
 				r.closedBefore[x.Label] = true
 				if g, wasRefused := cb.RefusedOn(x.Label); wasRefused && g == w.gen {
 					resp = fmt.Sprintf("EResumeResp %d RespRefused", x.Label)
+					r.excused[x.Label] = true
 				} else {
+					if w.severed || wi+1 < len(wins) {
+						// the broker killed this incarnation at a resume request, or the incarnation died right
+						// after: the resume exchange was cut
+						r.excused[x.Label] = true
+					}
 					// the exchange was cut: the answer surfaces once the wire connection is closed
 					deferred = append(deferred, resp)
 					continue
@@ -605,10 +621,11 @@ type result struct {
 	sig      string
 	nt       bool
 	unscripted int
+	noisy    bool // a wire incarnation was established outside every fault window (keepalive false positive under load)
 }
 
 func runCase(c *caseIn) (res result) {
-	r := &runner{cb: connbroker.New(), rets: map[int]int{}, lastEv: time.Now(), closedBefore: map[int]bool{}}
+	r := &runner{cb: connbroker.New(), rets: map[int]int{}, lastEv: time.Now(), closedBefore: map[int]bool{}, excused: map[int]bool{}}
 	defer r.cb.Release()
 	done := make(chan error, 1)
 	go func() {
@@ -782,12 +799,23 @@ func runCase(c *caseIn) (res result) {
 	_, _ = f9, f19
 	res.sig = strings.Join(sigs, " ")
 	exact := res.direct == ""
-	res.term = fmt.Sprintf("mkCn %s %s %d %s %s %d %d %s %s %s %s %s", coqfmt.List(r.evs), coqfmt.List(connects), r.tokens.Load(),
+	var excT []string
+	var excL []int
+	for l := range r.excused {
+		excL = append(excL, l)
+	}
+	sort.Ints(excL)
+	for _, l := range excL {
+		excT = append(excT, fmt.Sprint(l))
+	}
+	res.term = fmt.Sprintf("mkCn %s %s %d %s %s %d %d %s %s %s %s %s %s", coqfmt.List(r.evs), coqfmt.List(connects), r.tokens.Load(),
 		coqfmt.List(resumes), coqfmt.Bool(idsOK), disc, reconn, coqfmt.List(resumedT), coqfmt.List(sclosedT), coqfmt.List(retsT),
-		coqfmt.List(finalsT), coqfmt.Bool(exact))
+		coqfmt.List(finalsT), coqfmt.List(excT), coqfmt.Bool(exact))
 	res.observed = map[string]interface{}{"connects": connects, "tokens": r.tokens.Load(), "resumes": resumes, "disconnected": disc,
-		"reconnected": reconn, "resumed": resumed, "stream_closed": sclosed, "rets": rets, "finals": finals, "events": r.evs,
+		"reconnected": reconn, "resumed": resumed, "stream_closed": sclosed, "rets": rets, "finals": finals, "excused": excL, "events": r.evs,
 		"unscripted_outages": r.unscripted}
+	// also: an outage that began after the last settle and whose redial is still running at the snapshot
+	res.noisy = r.cb.Gens() != 1+r.accounted || disc != reconn
 	res.nt = reconn >= 1 && len(streams) >= 1 && len(resumes) >= 1
 	res.unscripted = r.unscripted
 	return
@@ -869,6 +897,13 @@ func main() {
 						}
 						f := faultIn{Pos: pos, Slow: slow, Down: sh[1] > sh[0], Refuse: int(r.Intn(4))}
 						jobs = append(jobs, job{&caseIn{Ups: sh[0], Downs: sh[1], Faults: []faultIn{f}}, "single-" + pos})
+						if pos == "midopen" || pos == "outopen" {
+							// streams of BOTH directions are opened around the outage (written again on the new
+							// incarnation) and then used
+							g := f
+							g.Down = !f.Down
+							jobs = append(jobs, job{&caseIn{Ups: sh[0], Downs: sh[1], Faults: []faultIn{g}}, "single-" + pos})
+						}
 					}
 				}
 			}
@@ -877,6 +912,8 @@ func main() {
 			jobs = append(jobs, job{genRandom(r.Fork()), "random"})
 		}
 	}
+	var noisyMu sync.Mutex
+	var nnoisy atomic.Int32
 	results := make([]coqfmt.Case, len(jobs))
 	unscripted := make([]int, len(jobs))
 	sem := make(chan struct{}, 12)
@@ -888,13 +925,21 @@ func main() {
 			defer wg.Done()
 			defer func() { <-sem }()
 			res := runCase(j.c)
+			// an outage nobody scripted, outside every fault window (a pong later than 40 ms on a loaded
+			// machine), races with the final use of the streams: the case is run again, alone (flakiness policy)
+			for try := 0; try < 3 && res.noisy; try++ {
+				noisyMu.Lock()
+				res = runCase(j.c)
+				noisyMu.Unlock()
+				nnoisy.Add(1)
+			}
 			if strings.HasPrefix(res.direct, "harness:") {
 				fmt.Fprintln(os.Stderr, res.direct)
 				os.Exit(3)
 			}
 			cs := coqfmt.Case{Term: res.term, Input: j.c, Observed: res.observed, Seed: uint64(i), Nontrivial: res.nt, Kind: j.kind, Direct: res.direct, Sig: res.sig}
 			if cs.Term == "" {
-				cs.Term = "mkCn [] [(0,0)] 1 [] true 0 0 [] [] [] [] false"
+				cs.Term = "mkCn [] [(0,0)] 1 [] true 0 0 [] [] [] [] [] false"
 			}
 			results[i] = cs
 			unscripted[i] = res.unscripted
@@ -929,7 +974,7 @@ func main() {
 		}
 	}
 	rule := "every position {idle, mid open, mid metadata, mid call, open/metadata/call issued during the outage, failed handshake of the redial, link cut at the first resume request, refused resume} x {0 ms, 50 ms redial} x stream shapes {0, 1 up, 1 down, 2+2, 3+1}, plus random scripts of 1-3 failures over 0-4 streams (loud and silent death, 0-2 failed handshakes per redial); ping 10 ms / 40 ms. non-trivial = at least one reconnect, one stream and one resume request; distinct = distinct Coq case terms"
-	extra := map[string]interface{}{"unscripted_keepalive_outages": nuns, "streams_left_detached": nf9, "streams_closed_without_event": nf19}
+	extra := map[string]interface{}{"unscripted_keepalive_outages": nuns, "reruns_after_unscripted_outage": int(nnoisy.Load()), "streams_left_detached": nf9, "streams_closed_without_event": nf19}
 	if err := w.Flush(*seed, *tier, rule, false, extra); err != nil {
 		fmt.Fprintln(os.Stderr, err)
 		os.Exit(2)
